@@ -142,7 +142,7 @@ class Module:
         self.name = os.path.relpath(path, PKG)[:-3].replace(os.sep, '.')
         with open(path, encoding='utf-8') as f:
             self.text = f.read()
-        self.tree = unalias_callees(unwalrus(ast.parse(self.text, filename=path)))
+        self.tree = unenum_numbers(unalias_callees(unwalrus(ast.parse(self.text, filename=path))))
         set_parents(self.tree)
         self.funcs = {}      # qual -> Func
         self.classes = {}    # name -> ClassDef
@@ -500,6 +500,49 @@ def _first_walrus(test):
     if isinstance(test, ast.BoolOp):
         return _first_walrus(test.values[0])
     return None
+
+
+def unenum_numbers(tree):
+    """`class K(enum.IntEnum): A = 97` at module level and `x == K.A` / `x < K.A` / `x + K.A`: a member of an IntEnum *is* the number
+    in every comparison by value and in arithmetic, so as an operand of one it is read as the number (`is`, formatting, .name, use
+    as a value to store or return are left alone).  Classes whose members are not all integer constants are left alone."""
+    enums = {}
+    for st in tree.body:
+        if isinstance(st, ast.ClassDef) and len(st.bases) == 1 and norm(st.bases[0]) in ('enum.IntEnum', 'IntEnum'):
+            mem, ok = {}, True
+            for b in st.body:
+                if isinstance(b, ast.Expr) and isinstance(b.value, ast.Constant):
+                    continue
+                if isinstance(b, ast.Assign) and len(b.targets) == 1 and isinstance(b.targets[0], ast.Name) and isinstance(b.value, ast.Constant) \
+                        and isinstance(b.value.value, int) and not isinstance(b.value.value, bool):
+                    mem[b.targets[0].id] = b.value.value
+                elif isinstance(b, (ast.FunctionDef, ast.Assign, ast.AnnAssign)):
+                    ok = False
+            if ok and mem:
+                enums[st.name] = mem
+    if not enums:
+        return tree
+
+    def member(n):
+        return isinstance(n, ast.Attribute) and isinstance(n.value, ast.Name) and n.value.id in enums and n.attr in enums[n.value.id] and isinstance(n.ctx, ast.Load)
+
+    def const(n):
+        return ast.copy_location(ast.Constant(value=enums[n.value.id][n.attr]), n)
+    for fn in ast.walk(tree):
+        if isinstance(fn, (ast.FunctionDef, ast.AsyncFunctionDef, ast.Lambda)) and any(
+                isinstance(a, ast.arg) and a.arg in enums for a in ast.walk(fn.args)):
+            return tree          # a parameter shadows the class name somewhere: leave the module alone
+    for n in ast.walk(tree):
+        if isinstance(n, ast.Compare) and all(isinstance(o, (ast.Eq, ast.NotEq, ast.Lt, ast.LtE, ast.Gt, ast.GtE)) for o in n.ops):
+            if member(n.left):
+                n.left = const(n.left)
+            n.comparators = [const(c) if member(c) else c for c in n.comparators]
+        elif isinstance(n, ast.BinOp):
+            if member(n.left):
+                n.left = const(n.left)
+            if member(n.right):
+                n.right = const(n.right)
+    return tree
 
 
 def unwalrus(tree):
